@@ -1,4 +1,5 @@
 import PhysisModel.Proofs.GameData
+import PhysisModel.Model.Extract
 /-!
 # C01 — archive lookup finds every stored game path, and only stored paths, history-independently
 
@@ -89,6 +90,31 @@ theorem c01_locate (disk : Disk) (a : Archive) (hr : Realises disk a) (hw : a.WF
         ((repoDir l.exp, datName a.platform l.exp l.cat l.chunk l.datId.toNat), l.offset))) := by
   rw [c01_answers disk a hr hw, c01_answers disk a hr hw]
   exact ⟨rfl, rfl⟩
+
+/-- `extract` in full (C01 ∘ C02 models): after any history, `extract(p)` is `None` for a path that
+is not stored or whose dat file is missing, and otherwise exactly what `read_from_offset` returns
+on the designated dat file at the designated offset -/
+theorem c01_extract_reads (inflate : Dat.Inflate) (disk : Disk) (a : Archive) (hr : Realises disk a)
+    (hw : a.WF) (qs : List Query) (p : Bytes) :
+    (extractFull inflate disk (run disk (fresh a) qs) p).1 =
+      match locate a p with
+      | none => some none
+      | some l =>
+        match disk (repoDir l.exp) (datName a.platform l.exp l.cat l.chunk l.datId.toNat) with
+        | none => some none
+        | some content => Dat.readFromOffset inflate content l.offset.toNat := by
+  have h := (c01_locate disk a hr hw qs p).2
+  simp only [step] at h
+  unfold extractFull
+  generalize extractQ disk (run disk (fresh a) qs) p = r at h
+  obtain ⟨ans, g'⟩ := r
+  simp only [] at h
+  subst h
+  cases locate a p with
+  | none => rfl
+  | some l =>
+    simp only [Option.map_some]
+    cases disk (repoDir l.exp) (datName a.platform l.exp l.cat l.chunk l.datId.toNat) <;> rfl
 
 /-- Letter case never matters — on **any** disk (well-formed or not), for any repository list and
 after any history: two paths with the same ASCII lower-casing get the same answers. -/
